@@ -27,8 +27,11 @@ ColGetOK(sch, x) ==
               ELSE IF IsThrow(x.cols[c]) THEN FALSE
               ELSE IF c \in {"date_created", "date_added"} THEN x.cols[c].v = <<x.row.v[1][c]>>
               ELSE x.cols[c].v = x.row.v[1][c]
+\* C16 at table level: the read functions (get, exists, all_ids, the 48 per-column getters) issued no write statement,
+\* changed no row, left the digest of all tables as it was, and a repeated observation agreed
+NoWrite(r) == r.o16.w = 0 /\ r.o16.chg = 0 /\ r.o16.rep /\ r.o16.same
 ObsOK(r, R, sch) ==
-    /\ Has(r, "obs")
+    /\ Has(r, "obs") /\ NoWrite(r)
     /\ DOMAIN Got(r) = DOMAIN R /\ \A id \in DOMAIN R : Got(r)[id] = R[id]
     /\ ~IsThrow(r.obs.all) /\ ToSet(r.obs.all.v) = DOMAIN R /\ Len(r.obs.all.v) = Cardinality(DOMAIN R)
     /\ \A x \in ToSet(r.obs.rows) : ColGetOK(sch, x)
